@@ -10,3 +10,4 @@ open GN.Props.C02
 #print axioms loader_error_propagates
 #print axioms first_existing_wins
 #print axioms path_classifier
+#print axioms resolve_literals_match
